@@ -52,7 +52,7 @@ def build(m):
 
 class simulation_model(Model):
     def __init__(self):
-        super().__init__(starttime=0.0, stoptime=4.0, dt=1.0, name="c07")
+        super().__init__(starttime=1.0, stoptime=4.0, dt=1.0, name="c07")
         build(self)
 ''' % {"P0": P0, "Q0": Q0}
 
@@ -90,7 +90,7 @@ def stmx_text():
     return xmile.document(vs, 0, 4, 0.5)
 
 
-BASE = {"k": 2.0, "k2": 0.5, "lk": P0, "start": 0.0, "stop": 4.0, "dt": 1.0}
+BASE = {"k": 2.0, "k2": 0.5, "lk": P0, "start": 1.0, "stop": 4.0, "dt": 1.0}     # (the model itself starts at 1: an override of 0 is an override)
 
 # setting kinds: name -> (scenario dictionary fragment, effect on the effective values)
 SETTINGS = {
@@ -101,12 +101,16 @@ SETTINGS = {
     "const-zero-int": ({"constants": {"k": 0}}, {"k": 0.0}),
     "points": ({"points": {"lk": P1}}, {"lk": P1}),
     "const+points": ({"constants": {"k2": 1.25}, "points": {"lk": P1}}, {"k2": 1.25, "lk": P1}),
-    "start": ({"runspecs": {"starttime": 1.0}}, {"start": 1.0}),
+    "const-long": ({"constants": {"k": 0.123456789, "k2": 1.0 / 3.0}}, {"k": 0.123456789, "k2": 1.0 / 3.0}),
+    "const-tiny": ({"constants": {"k2": 2.5e-07}}, {"k2": 2.5e-07}),
+    "start": ({"runspecs": {"starttime": 0.0}}, {"start": 0.0}),
+    "start-int-zero": ({"runspecs": {"starttime": 0}}, {"start": 0.0}),
+    "start-neg": ({"runspecs": {"starttime": -1.0}}, {"start": -1.0}),
     "stop": ({"runspecs": {"stoptime": 3.0}}, {"stop": 3.0}),
     "dt": ({"runspecs": {"dt": 0.5}}, {"dt": 0.5}),
-    "runspec-all": ({"runspecs": {"starttime": 1.0, "stoptime": 3.0, "dt": 0.25}}, {"start": 1.0, "stop": 3.0, "dt": 0.25}),
-    "all": ({"constants": {"k": 3.5}, "points": {"lk": P1}, "runspecs": {"starttime": 1.0, "stoptime": 2.0, "dt": 0.5}},
-            {"k": 3.5, "lk": P1, "start": 1.0, "stop": 2.0, "dt": 0.5}),
+    "runspec-all": ({"runspecs": {"starttime": 0.5, "stoptime": 3.0, "dt": 0.25}}, {"start": 0.5, "stop": 3.0, "dt": 0.25}),
+    "all": ({"constants": {"k": 3.5}, "points": {"lk": P1}, "runspecs": {"starttime": 2.0, "stoptime": 3.0, "dt": 0.5}},
+            {"k": 3.5, "lk": P1, "start": 2.0, "stop": 3.0, "dt": 0.5}),
 }
 BASES = {
     "nobase": ({}, {}),
@@ -269,7 +273,7 @@ def run_case(case):
                 with open(os.path.join(proj.dir, "scenarios", fb), "w") as f:
                     json.dump({sm: second}, f)
             b = core.new_bptk_here()
-        elif channel in ("session", "rest", "session-after-run", "rest-after-run", "rest-after-run+unknown-scenario-before", "rest-after-run+unknown-scenario-behind",
+        elif channel in ("session", "rest", "session-after-run", "rest-after-run", "export", "repeat-points", "rest-after-run+unknown-scenario-before", "rest-after-run+unknown-scenario-behind",
                          "rest-after-run+unknown-manager-before", "rest-after-run+unknown-manager-behind"):
             b = core.new_bptk_here()
             if kind == "dsl":
@@ -309,6 +313,47 @@ def run_case(case):
             channel = channel[:-len("-after-run")]
         if viol:
             pass
+        elif channel == "repeat-points":
+            # the same scenario receives new points for the same lookup 150 times in a row (sessions and batch runs in turn); each delivery
+            # is what the next results are computed with (tables come and go: nothing may be keyed by where a table happened to live)
+            for i in range(150):
+                pts = [[0.0, float(i)], [8.0, float(i) + 4.0 + (i % 7)]]
+                key = "lk" if kind == "dsl" else "g"
+                st_i = {sm: {"s1": {"points": {key: [list(q) for q in pts]}}}}
+                eff = dict(eff0, lk=pts)
+                spec = ref_spec(eff) if kind == "dsl" else xref_spec(eff)
+                b.begin_session(scenarios=["s1"], scenario_managers=[sm], equations=list(eqs), settings=st_i, starttime=spec["start"], dt=spec["dt"])
+                r = b.run_step()
+                r2 = b.run_step()
+                b.end_session()
+                ref = refsd.RefModel(spec)
+                t1 = refsd.grid(spec["start"], spec["stop"], spec["dt"])[1]
+                gname = "g"
+                got = list(r2[sm]["s1"][gname].values())[0]
+                want = ref.value(gname, t1)
+                if not core.close(got, want, rel=1e-9, ab=1e-9):
+                    viol.append(("value/g/delivery-%d" % (i // 25 * 25), "delivery #%d of new points for the lookup: g(%r) = %r, with the points just delivered %r" % (i, float(t1), got, want)))
+                    break
+        elif channel == "export":
+            # the settings reach the scenario through export_scenarios' interactive settings (value ranges start, stop, step per constant);
+            # the scenario has been exported (and so simulated) with its old values in the same call
+            consts = SETTINGS[setting][0].get("constants", {})
+            ranges = {c: (v, v + 1.5, 1.0) for c, v in consts.items()}        # two values per constant: v and v + 1
+            res = b.export_scenarios(sm, scenarios=["s1", "s0"], equations=list(eqs), interactive_scenario="s1", interactive_equations=list(eqs),
+                                     interactive_settings=ranges)
+            tab = res["interactive"]
+            names = list(ranges)
+            import itertools as _it
+            for combo in _it.product(*[(consts[c], consts[c] + 1.0) for c in names]):
+                sel = tab
+                for c, v in zip(names, combo):
+                    sel = sel[abs(sel[c] - v) < 1e-12]
+                eff = dict(eff1)
+                eff.update({c: v for c, v in zip(names, combo)})
+                series = {n: {float(t): val for t, val in zip(sel["time"], sel[n])} for n in eqs}
+                viol += compare(series, eff, kind, "export_scenarios interactive block %r" % (dict(zip(names, combo)),), fmt="dict")
+                if viol:
+                    break
         elif channel == "session":
             spec = ref_spec(eff1) if kind == "dsl" else xref_spec(eff1)
             b.begin_session(scenarios=["s1"], scenario_managers=[sm], equations=list(eqs), settings=settings,
@@ -358,13 +403,17 @@ def run_case(case):
 
 def cases(tier):
     out = []
-    for channel in ("dict", "register_model", "file", "two-files", "two-files-rev", "session", "rest", "session-after-run", "rest-after-run",
+    for channel in ("dict", "register_model", "file", "two-files", "two-files-rev", "session", "rest", "session-after-run", "rest-after-run", "export", "repeat-points",
                     "rest-after-run+unknown-scenario-before", "rest-after-run+unknown-scenario-behind",
                     "rest-after-run+unknown-manager-before", "rest-after-run+unknown-manager-behind"):
         for base in BASES:
             for setting in SETTINGS:
+                if channel == "export" and not (setting.startswith("const") and "points" not in setting):
+                    continue          # (interactive settings are ranges of constants)
+                if channel == "repeat-points" and (setting != "none" or base != "nobase"):
+                    continue
                 out.append(("dsl", channel, base, setting))
-                if not any(x in setting for x in ("start", "stop", "dt", "runspec", "all")) and setting not in ("const2", "const-zero"):
+                if not any(x in setting for x in ("start", "stop", "dt", "runspec", "all")) and setting not in ("const2", "const-zero", "const-long", "const-tiny"):
                     if channel != "register_model":
                         out.append(("xmile", channel, base, setting))
     return out
@@ -388,7 +437,7 @@ def run(ctx):
                 ctx.violation("C07/%s/%s/%s/%s/%s" % (clause, c[0], c[1], c[2], c[3]), {"case": list(c)}, detail)
     ctx.finish({
         "evaluations": len(cs), "distinct_nontrivial": n,
-        "rule": "complete product model kind {dsl, xmile} x channel {dict, register_model, file, two-files, two-files-rev, session, rest, session-after-run, rest-after-run, rest-after-run with an entry for an unknown scenario / manager before / behind the valid one} x manager base values "
+        "rule": "complete product model kind {dsl, xmile} x channel {dict, register_model, file, two-files, two-files-rev, session, rest, session-after-run, rest-after-run, export_scenarios' interactive settings, rest-after-run with an entry for an unknown scenario / manager before / behind the valid one} x manager base values "
                 "{none, constants, points, both} x scenario setting {none, constant(s), points, constant+points, start, stop, dt, all run specs, all}; "
                 "run specs for DSL models only; per case the overriding scenario s1 and its sibling s0 are compared with the direct build",
         "samples": [list(c) for c in cs[:3]] + [list(cs[len(cs) // 2])],
